@@ -129,6 +129,45 @@ pub fn run(seed: u64, tier: &str, w: &mut dyn Write) -> usize {
                          what.split('/').map(|x| if x.chars().all(|c| c.is_ascii_digit()) { "N" } else { x }).collect::<Vec<_>>().join("/")).unwrap();
                 n += 1;
             }
+            // (5) equivalence on altered ORIGINALS: everything outside the per-query data (public
+            //     inputs, caps, openings, final polynomial, grinding witness) is carried verbatim by
+            //     compress, so ordinary verification of p' and compressed verification of
+            //     compress(p') must give the same verdict - also for public-input vectors of the
+            //     wrong length (hash_no_pad does not separate [x] from [x, 0])
+            let proot = serde_json::to_value(&b.proof).unwrap();
+            let mut pls = vec![]; let mut parrs = vec![];
+            crate::c03::leaves_pub(&proot, &mut vec![], &mut pls, &mut parrs);
+            let outside: Vec<Vec<String>> = pls.iter().filter(|p| !p.iter().any(|x| x == "query_round_proofs")).cloned().collect();
+            let nalt = if tier == "thorough" { 16 } else { 8 };
+            for t in 0..nalt {
+                let mut tv = proot.clone();
+                let what: String;
+                match t {
+                    0 => { tv["public_inputs"].as_array_mut().unwrap().push(serde_json::Value::from(0u64)); what = "public_inputs+[0]".into() }
+                    1 => { tv["public_inputs"].as_array_mut().unwrap().push(serde_json::Value::from(1 + r.below(1000))); what = "public_inputs+[x]".into() }
+                    2 => { if tv["public_inputs"].as_array_mut().unwrap().pop().is_none() { continue } what = "public_inputs-last".into() }
+                    3 => { let a = tv["public_inputs"].as_array_mut().unwrap(); if a.is_empty() { continue }
+                           let k = r.below(a.len() as u64) as usize; let old = a[k].as_u64().unwrap_or(0);
+                           a[k] = serde_json::Value::from(if old % crate::rng::P == crate::rng::P - 1 { 0 } else { old + 1 }); what = "public_inputs[k]+1".into() }
+                    4 => { let a = tv["public_inputs"].as_array_mut().unwrap(); for _ in 0..8 { a.push(serde_json::Value::from(0u64)); } what = "public_inputs+[0;8]".into() }
+                    _ => { if outside.is_empty() { continue }
+                           let path = r.pick(&outside).clone();
+                           let cur = crate::c03::at_pub(&mut tv, &path);
+                           let old = cur.as_u64().unwrap_or(0);
+                           *cur = serde_json::Value::from(if old % crate::rng::P == crate::rng::P - 1 { 0 } else { old + 1 });
+                           what = path.iter().map(|x| if x.chars().all(|c| c.is_ascii_digit()) { "N" } else { x.as_str() }).collect::<Vec<_>>().join("/") }
+                }
+                let p2: plonky2::plonk::proof::ProofWithPublicInputs<_, C, 2> = match serde_json::from_value(tv) { Ok(c) => c, Err(_) => continue };
+                let vp = vclass(|| b.data.verify(p2.clone()));
+                let vc = match catch_unwind(AssertUnwindSafe(|| b.data.compress(p2.clone()))) {
+                    Ok(Ok(c2)) => vclass(|| b.data.verify_compressed(c2)),
+                    Ok(Err(_)) => "err",
+                    Err(_) => "panic",
+                };
+                let okc = (vp == "ok") == (vc == "ok");
+                writeln!(w, "c16 {base} altered-original-equiv = {} # {what}: plain {vp} compress+compressed {vc}", okc as u8).unwrap();
+                n += 1;
+            }
         }
     }
     n
